@@ -259,7 +259,7 @@ func c01Visit(v *fsVisit) {
 		short = fmt.Sprintf("status=%d", v.Resp.Status)
 	}
 	s.Violate(engine.Violation{Sig: "C01/" + clause + "/" + c01Coarse(e.Class) + "/want=" + e.want() + "/" + short, Clause: clause, Index: v.Index, Kind: "C01",
-		Case:     fsCase{State: v.State, Req: v.Req},
+		Case:     fsCase{State: v.State, Req: v.Req, Spell: v.Spell},
 		Expected: fmt.Sprintf("status %s (%s); tree %s", e.want(), strings.Join(e.Reasons, "; "), e.Next.Canon()),
 		Observed: fmt.Sprintf("status %d; tree %s; %s; body=%q", v.Resp.Status, v.After.Canon(), obs, trunc(string(v.Resp.Body), 200))})
 }
@@ -298,6 +298,14 @@ func init() {
 				v.S.Sample(map[string]interface{}{"state": v.State.Canon(), "request": v.Req.String(), "status": v.Resp.Status, "after": v.After.Canon()})
 			}
 		})
+		// the same directory configured in other spellings (trailing slash, "/.", "//", "/./"): a subset of
+		// the states x every request, same model
+		sub := fsSpellingStates(states, quick)
+		for sp := 1; sp < len(fsRootSpellings); sp++ {
+			exploreFSspell(r, sub, reqs, nil, sp, c01Visit)
+		}
+		r.Extra["root_spellings"] = fsRootSpellings
+		r.Extra["root_spelling_states"] = len(sub)
 		// real histories from the empty directory (breadth-first, canonical-state hashing)
 		c01Histories(r, quick)
 		harness.Cleanup()
